@@ -129,6 +129,12 @@ class Index:
             k = (rel, node.targets[0].id)
             # a name bound twice at module level is not a constant
             self.module_consts[k] = None if k in self.module_consts else node.value
+        elif (isinstance(node, ast.Assign) and len(node.targets) == 1 and isinstance(node.targets[0], ast.Tuple) and isinstance(node.value, ast.Tuple)
+              and len(node.targets[0].elts) == len(node.value.elts) and all(isinstance(t, ast.Name) for t in node.targets[0].elts)):
+            # A, B, C = 0, 1, 2
+            for t, v in zip(node.targets[0].elts, node.value.elts):
+                k = (rel, t.id)
+                self.module_consts[k] = None if k in self.module_consts else v
         elif isinstance(node, (ast.If, ast.Try)):
             for sub in ast.iter_child_nodes(node):
                 if isinstance(sub, (ast.ClassDef, ast.FunctionDef)):
